@@ -87,3 +87,26 @@ Fixpoint s_ref_after (c : scfg) (r : rstate) (run : srun) (ops : list sop) : opt
     | Err _ => None
     end
   end.
+
+(** ---------------- completeness (no spurious loss) ---------------- *)
+(** With no max_capacity, every entry the reference state holds live is returned:
+    the cache is exactly a map with expiry. *)
+Definition u_out_complete (c : ucfg) (now : N) (r : rstate) (o : uop) (out : uout) : Prop :=
+  match o, out with
+  | UGet k, OVal res => forall v, justified (uc_ttl c) (uc_tti c) now r k v -> res = Some v
+  | UContains k, OBool b => (exists v, justified (uc_ttl c) (uc_tti c) now r k v) -> b = true
+  | UIter, OList l => forall k v, justified (uc_ttl c) (uc_tti c) now r k v -> (k, v) ∈ l
+  | _, _ => True
+  end.
+
+Fixpoint u_trace_complete (c : ucfg) (r : rstate) (run : urun) (ops : list uop) : Prop :=
+  match ops with
+  | [] => True
+  | o :: rest =>
+    match ustep c run o with
+    | Ok (run', out) =>
+      u_out_complete c (ur_now run) r o out /\
+      u_trace_complete c (rstep FUnsync (ur_now run) r (aop_of_u o out)) run' rest
+    | Err _ => True
+    end
+  end.
